@@ -13,11 +13,12 @@ import numpy as np
 
 from harness import alpha, compare, core, gamma, shims, tlc, util
 
-KINDS_C04 = ["DeleteFile", "Truncate", "Extend", "InsertData", "RemoveData", "FabIdx", "FabNComp",
+KINDS_C04 = ["DeleteFile", "Truncate", "Extend", "InsertData", "RemoveData", "HeadCut", "HeadPad", "FabIdx", "FabNComp",
              "CellHIdx", "DropBoxLine", "DropFodLine", "GarbleBox", "GarbleFod", "NFieldsLine",
              "FodFile", "FodOffset", "BoxBound"]
 KINDS_C20 = KINDS_C04 + ["FabBlanks"]
 INVS = ["AcceptsWellFormed", "RejectsDamaged", "AcceptedIsReadable", "NeverRaisesNoFail", "Emit"]
+HEAD_EDIT = 3          # bytes cut from / put in front of a FAB header line by HeadCut / HeadPad
 PATTERN = [1, 2, 1, 2]
 NF = 2
 FIELDS = ["a", "b"]
@@ -132,13 +133,21 @@ def concretise(chk, sc, cfgseed, ndims, style=None):
                 pos.append(pos[-1] + len(blob))
                 i += 1
                 continue
-            idx, nc, canon = u
+            idx, nc, canon = u[:3]
+            sh = u[3] if len(u) > 3 else 0
             lo, hi = idx_range(ap, lv, idx)
             hdr = gamma.fab_header(lo, hi, nc)
-            if not canon:
+            nominal = len(hdr)
+            if sh < 0:
+                hdr = hdr[HEAD_EDIT:]                 # bytes cut from the start of the line: its tail still parses
+            elif sh > 0:
+                hdr = b"fab"[:HEAD_EDIT] + hdr        # ASCII bytes in front of the line
+            elif not canon:
                 hdr = hdr.replace(b") (", b")  (", 1)
+                nominal = len(hdr)                    # blanks: the level header records the positions as they are
             out.append(hdr)
-            pos.append(pos[-1] + len(hdr))
+            # recorded byte positions do not follow a cut / pad: that is the damage
+            pos.append(pos[-1] + nominal)
             i += 1
             # intact FAB of a real box: real data, so that reads can be compared
             need = cells_abs[idx] * nc
